@@ -143,7 +143,7 @@ class Check:
                    notes=self.notes)
         if exhaustive:
             cov["exhaustive"] = True
-        cov.update(self.extra)
+        cov.update({k: v for k, v in self.extra.items() if not k.startswith("_")})
         if extra_cov:
             cov.update(extra_cov)
         core.write_evidence(self.prop, self.tier, level, cov, assumptions, time.time() - self.t0, viol)
